@@ -6,7 +6,7 @@ tank-to-wake / well-to-tank formulas and the mix rule of
 import FeemsModel.Model.KeyedList
 
 namespace Feems.Fuel
-export Feems.KV (kinds total massOf firstOf addMatched addRest add addSpec scale WellFormed)
+export Feems.KV (kinds total massOf takeFirst firstOf addMatched addRest add addLegacy addSpec scale WellFormed)
 
 /-- What `__add__` matches on: fuel type, origin and `fuel_specified_by` (enum numbers). -/
 structure Kind where
